@@ -30,7 +30,8 @@ KINDS = ("ideal-large", "ideal-small", "l2c-large", "l2s-small", "l2c-noise", "l
 
 
 def sess(st, a, stay, kind):
-    s = {"st": st, "a": a, "d": a + stay, "kind": kind}
+    # the driver's ESTIMATED departure is later than the real one (it only informs schedulers; sessions end at `d`)
+    s = {"st": st, "a": a, "d": a + stay, "kind": kind, "ed": a + stay + 1 + (a % 2)}
     if kind == "ideal-large":
         s.update(batt="ideal", e=50.0, cap=100.0, init=10.0, pmax=7.0)
     elif kind == "ideal-small":  # battery is the binding limit (fills up)
